@@ -16,15 +16,23 @@ class Chain:
         self.n, self.tag = n, tag
         self.ns = ["%s%s%d" % (P, tag, i) for i in range(n + 2)]
         self.procs = []
+        self.v6 = True              # dual stack when the kernel allows it
 
     def addr(self, node):           # the address of `node` facing the client
         return "198.18.%d.2" % node
+
+    def addr6(self, node):
+        return "fd00:18:%x::2" % node
 
     def up(self):
         for ns in self.ns:
             sh("ip netns add %s" % ns)
             sh("ip netns exec %s ip link set lo up" % ns)
             sh("ip netns exec %s sysctl -qw net.ipv4.ip_forward=1 net.ipv4.icmp_ratelimit=0 net.ipv4.conf.all.rp_filter=0 net.ipv4.conf.default.rp_filter=0" % ns)
+            self.v6 = self.v6 and (subprocess.run("ip netns exec %s sysctl -qw net.ipv6.conf.all.disable_ipv6=0 net.ipv6.conf.default.disable_ipv6=0 net.ipv6.conf.all.forwarding=1 net.ipv6.conf.default.forwarding=1 net.ipv6.icmp.ratelimit=0 net.ipv6.conf.all.accept_dad=0 net.ipv6.conf.default.accept_dad=0" % ns,
+                                                 shell=True, stdout=subprocess.DEVNULL, stderr=subprocess.DEVNULL).returncode == 0)
+            if self.v6:
+                sh("ip netns exec %s ip -6 addr add ::1/128 dev lo" % ns, check=False)
         for i in range(1, self.n + 2):
             a, b = "%s%sl%d" % (P, self.tag, i), "%s%sr%d" % (P, self.tag, i)
             sh("ip link add %s type veth peer name %s" % (a, b))
@@ -34,6 +42,9 @@ class Chain:
             sh("ip netns exec %s ip addr add 198.18.%d.2/24 dev %s" % (self.ns[i], i, b))
             sh("ip netns exec %s ip link set %s up" % (self.ns[i - 1], a))
             sh("ip netns exec %s ip link set %s up" % (self.ns[i], b))
+            if self.v6:
+                sh("ip netns exec %s ip -6 addr add fd00:18:%x::1/64 dev %s nodad" % (self.ns[i - 1], i, a))
+                sh("ip netns exec %s ip -6 addr add fd00:18:%x::2/64 dev %s nodad" % (self.ns[i], i, b))
         for k in range(0, self.n + 2):
             # towards the destination side
             for j in range(k + 2, self.n + 2):
@@ -41,6 +52,11 @@ class Chain:
             # towards the client side
             for j in range(1, k):
                 sh("ip netns exec %s ip route add 198.18.%d.0/24 via 198.18.%d.1" % (self.ns[k], j, k))
+            if self.v6:
+                for j in range(k + 2, self.n + 2):
+                    sh("ip netns exec %s ip -6 route add fd00:18:%x::/64 via fd00:18:%x::2" % (self.ns[k], j, k + 1))
+                for j in range(1, k):
+                    sh("ip netns exec %s ip -6 route add fd00:18:%x::/64 via fd00:18:%x::1" % (self.ns[k], j, k))
 
     def listen(self, port):
         code = ("import socket,time\ns=socket.socket();s.setsockopt(socket.SOL_SOCKET,socket.SO_REUSEADDR,1);s.bind(('0.0.0.0',%d));s.listen(64)\n"
@@ -54,6 +70,10 @@ class Chain:
         sh("ip netns exec %s nft add table ip vt" % ns)
         sh("ip netns exec %s nft 'add chain ip vt out { type filter hook output priority 0 ; }'" % ns)
         sh("ip netns exec %s nft add rule ip vt out icmp type time-exceeded drop" % ns)
+        if self.v6:
+            sh("ip netns exec %s nft add table ip6 vt" % ns)
+            sh("ip netns exec %s nft 'add chain ip6 vt out { type filter hook output priority 0 ; }'" % ns)
+            sh("ip netns exec %s nft add rule ip6 vt out icmpv6 type time-exceeded drop" % ns)
 
     def no_sack(self):
         sh("ip netns exec %s sysctl -qw net.ipv4.tcp_sack=0" % self.ns[-1])
@@ -73,5 +93,9 @@ if __name__ == "__main__":
         c.up()
         print(sh("ip netns exec %s ip route" % c.ns[0]))
         print(sh("ip netns exec %s ping -c1 -W1 %s" % (c.ns[0], c.addr(c.n + 1)), check=False))
+        print("v6:", c.v6)
+        if c.v6:
+            print(sh("ip netns exec %s ip -6 route" % c.ns[0]))
+            print(sh("ip netns exec %s ping -6 -c1 -W1 %s" % (c.ns[0], c.addr6(c.n + 1)), check=False))
     finally:
         c.down()
